@@ -125,6 +125,29 @@ def _c09_cleared_terminal(case, mm):
     return False
 
 
+@predicate("C05-write-through-constant-view")
+def _c05_const_view_write(case, mm):
+    """A set-item whose target is a constant-flagged view of non-constant memory, and MyGrad's gradients are exactly
+    those of the model in which such a write first detaches the old contents of the view's whole region (the gradient
+    of everything else - in particular of the written value - must still be right)."""
+    if mm.kind not in ("grad_value", "grad_missing"):
+        return False
+    from vf.ir import RefRun
+    from vf.checks import c05
+
+    stmts = case["prog"]["stmts"]
+    ref = RefRun(case["prog"], flag_views="memory").run()
+    hit = False
+    for s in stmts:
+        if s["k"] == "inplace" and s["kind"] == "setitem":
+            t = s["target"]
+            if ref.const[t] and not ref.const[ref.owner[t]]:
+                hit = True
+    if not hit:
+        return False
+    return c05.check_case(case, model="memory-sever") is None
+
+
 def _gru_output_shape(case, mm):
     if mm.kind not in ("grad_shape", "grad_meta"):
         return False
